@@ -4,7 +4,7 @@
    source by harness/gen/gen_fields.py.) *)
 From Coq Require Import List Arith Lia.
 Import ListNotations.
-From BQ Require Import circuit.CModel circuit.CThm circuit.CPickle circuit.CPickleThm.
+From BQ Require Import circuit.CModel circuit.CThm circuit.CPickle circuit.CPickleThm circuit.CPickleTbl circuit.CPickleTblThm.
 
 (* what __reduce__ marshals is exactly the list of cycles, each in iteration order *)
 Theorem C16_reduce_is_cycles : forall c, Inv c -> reduce c = map fwd_cycle (cycles c).
@@ -38,3 +38,45 @@ Proof. split; [|vm_compute; reflexivity].
   unfold Inv; cbn [cycles].
   constructor; [split; [discriminate|]|constructor; [split; [discriminate|]|constructor]];
   intros q; cbn; repeat match goal with |- context[if ?b then _ else _] => destruct b end; cbn; auto. Qed.
+
+(* ---- the gate table of __reduce__ / rebuild_circuit (circuit/CPickleTbl.v) ------------------------------------
+   Operations are marshalled as an index into a table keyed by the gates' own __hash__/__eq__.  The round trip returns
+   every operation with the very gate that was sent PROVIDED a key match (same hash and ==) identifies the gate; this
+   hypothesis is evaluated on the real gate classes on every run (harness/c16_families.py). *)
+Theorem C16_gate_table_roundtrip : forall (G : Type) (ghash : G -> nat) (geq : G -> G -> bool) (X : Type) (ops : list (G * X)),
+  (forall a b, keq G ghash geq a b = true -> a = b) ->
+  (forall a, keq G ghash geq a a = true) ->
+  table_roundtrip G ghash geq X ops = Some ops.
+Proof. exact table_roundtrip_ok. Qed.
+
+(* the same for any table that covers the operations (the set iteration order is irrelevant) *)
+Theorem C16_gate_table_roundtrip_any_table : forall (G : Type) (ghash : G -> nat) (geq : G -> G -> bool) (X : Type) tbl (ops : list (G * X)),
+  (forall a b, keq G ghash geq a b = true -> a = b) ->
+  (forall g, In g (map fst ops) -> lookup G ghash geq tbl g <> None) ->
+  roundtrip G ghash geq X tbl ops = Some ops.
+Proof. exact roundtrip_injective. Qed.
+
+(* without the hypothesis: what arrives only MATCHES what was sent (so `received == sent` is no evidence) *)
+Theorem C16_gate_table_roundtrip_weak : forall (G : Type) (ghash : G -> nat) (geq : G -> G -> bool) (X : Type) tbl (ops ops' : list (G * X)),
+  roundtrip G ghash geq X tbl ops = Some ops' ->
+  Forall2 (fun o o' => keq G ghash geq (fst o') (fst o) = true /\ snd o' = snd o) ops ops'.
+Proof. exact roundtrip_keq. Qed.
+
+(* the hypothesis is needed even when == is an equivalence relation consistent with the hash: gates (target, control level)
+   compared on the target only arrive merged *)
+Theorem C16_gate_table_needs_injective_eq_refuted :
+  (forall a, w_eq a a = true) /\ (forall a b, w_eq a b = true -> w_eq b a = true)
+  /\ (forall a b c, w_eq a b = true -> w_eq b c = true -> w_eq a c = true)
+  /\ (forall a b, w_eq a b = true -> w_hash a = w_hash b)
+  /\ exists ops', table_roundtrip _ w_hash w_eq nat w_ops = Some ops' /\ ops' <> w_ops
+       /\ Forall2 (fun o o' => w_eq (fst o') (fst o) = true /\ snd o' = snd o) w_ops ops'.
+Proof. exact table_needs_injective_eq_refuted. Qed.
+
+(* non-vacuity: an injective, reflexive key match (gates = numbers) and a circuit using three gates, one of them twice *)
+Example C16_gate_table_nonvacuous :
+  (forall a b, keq nat (fun g => g) Nat.eqb a b = true -> a = b) /\ (forall a, keq nat (fun g => g) Nat.eqb a a = true)
+  /\ marshal nat (fun g => g) Nat.eqb nat (gate_set_of nat (fun g => g) Nat.eqb [4; 7; 4; 9]) [(4, 0); (7, 1); (4, 2); (9, 3)]
+      = Some [(0, 0); (1, 1); (0, 2); (2, 3)].
+Proof. unfold keq. repeat split.
+  - intros a b H. apply andb_prop in H. apply Nat.eqb_eq. apply H.
+  - intros a. rewrite !Nat.eqb_refl. reflexivity. Qed.
